@@ -388,3 +388,60 @@ Example repaired_runs_end_well :
        (X_abort ++ [XDeliver 1; XDeliver 1; XDeliver 1; XDeliver 1])) in
      pc (jobs s 1) = PReturned DONE /\ wst s = WReturned).
 Proof. repeat split; vm_compute; reflexivity. Qed.
+
+(* ------------------------------------------------------------------ the hypotheses of the theorems are satisfiable *)
+Definition W_fail : workload :=
+  {| w_jobs := [ {| j_deps := []; j_code := 1; j_marker := false; j_ident := 0 |};
+                 {| j_deps := [DJob 0; DTok 0 1]; j_code := 0; j_marker := false; j_ident := 1 |};
+                 {| j_deps := [DTok 0 2]; j_code := 0; j_marker := false; j_ident := 2 |};
+                 {| j_deps := [DJob 2]; j_code := 0; j_marker := false; j_ident := 3 |} ]; w_tokens := [2%nat] |}.
+Definition X_fail := [XSubmit 0; XSubmit 1; XSubmit 2; XSubmit 3; XDeliver 0; XDeliver 2; XDeliver 0; XDeliver 2;
+                      XDeliver 2; XDeliver 0; XDeliver 2; XDeliver 0; XDeliver 1; XDeliver 3]%nat.
+Definition L_fail := expand W_fail all_fixed (init W_fail) X_fail.
+Definition L_fail_end := expand W_fail all_fixed (final W_fail all_fixed L_fail)
+                           [XDeliver 3; XDeliver 3; XWait; XDeliver 3]%nat.
+
+Lemma reachable_final : forall W ls, is_some (steps W (init W) ls) = true -> reachable W (final W all_fixed ls).
+Proof. intros W ls H. exists ls. apply final_some. exact H. Qed.
+
+Lemma steps_app : forall W ls1 ls2 s, steps W s (ls1 ++ ls2) =
+  match steps W s ls1 with Some s1 => steps W s1 ls2 | None => None end.
+Proof.
+  intros W ls1. induction ls1 as [|l r IH]; simpl; intros; auto.
+  unfold steps in *. simpl. destruct (step_gen W all_fixed s l); auto.
+Qed.
+
+(* a well-formed workload with a failure, a cancelled dependent, an independent chain, tokens;
+   a reachable state in which jobs have returned (final_truthful, final_absorbing, returned_stable,
+   failed_ancestor_not_launched, independent_unaffected, counter_exact have non-trivial instances) *)
+Example ex_reachable_fail :
+  let s := final W_fail all_fixed L_fail in
+  wf W_fail = true /\ reachable W_fail s /\
+  pc (jobs s 0) = PReturned ERROR /\ launches (jobs s 0) = 1%nat /\
+  pc (jobs s 1) = PReturned ERROR /\ launches (jobs s 1) = 0%nat /\ fdep (jobs s 1) = true /\ fanc W_fail s 1 /\
+  pc (jobs s 2) = PReturned DONE /\ launches (jobs s 2) = 1%nat /\
+  past_loop (pc (jobs s 2)) = true /\ unfinished s = 1.
+Proof.
+  simpl. split; [reflexivity|]. split; [apply reachable_final; vm_compute; reflexivity|].
+  repeat split; try (vm_compute; reflexivity).
+  apply fa_direct with (k := 0%nat); [simpl; auto|vm_compute; reflexivity].
+Qed.
+
+(* a launch step whose job has a job dependency (launch_after_deps), and a step at which wait()
+   completes by raising (wait_sound, exit_reports) *)
+Example ex_launch_and_wait :
+  let s0 := final W_fail all_fixed L_fail in
+  exists s1 s2 s3 s4 l1 l2,
+    reachable W_fail s1 /\ step W_fail s1 l1 = Some s2 /\ launch_step s1 s2 3 /\ In (DJob 2) (deps W_fail 3) /\
+    reachable W_fail s3 /\ step W_fail s3 l2 = Some s4 /\ wait_completes s3 s4 /\ wst s4 = WRaised.
+Proof.
+  simpl.
+  set (la := L_fail ++ [LDeliver 3]%nat).
+  set (lb := L_fail ++ L_fail_end).
+  exists (final W_fail all_fixed la), (final W_fail all_fixed (la ++ [LRun 0])),
+         (final W_fail all_fixed (removelast lb)), (final W_fail all_fixed lb), (LRun 0), (LRun 0).
+  split; [apply reachable_final; vm_compute; reflexivity|].
+  split; [vm_compute; reflexivity|]. split; [vm_compute; reflexivity|]. split; [simpl; auto|].
+  split; [apply reachable_final; vm_compute; reflexivity|].
+  split; [vm_compute; reflexivity|]. split; [split; vm_compute; reflexivity|vm_compute; reflexivity].
+Qed.
